@@ -414,6 +414,9 @@ func (m *Machine) hexDecode(s *smt.Term) (okc *smt.Term, data *smt.Term) {
 		}
 		return smt.True, smt.StrC(string(d))
 	}
+	if s.Op == "uf" && s.Name == "hexenc" {
+		return smt.True, s.Args[0]
+	}
 	okc = smt.UF("hexok", smt.Bool, s)
 	data = smt.UF("hexdec", smt.Str, s)
 	// length law for successful decodes
@@ -424,6 +427,10 @@ func (m *Machine) hexDecode(s *smt.Term) (okc *smt.Term, data *smt.Term) {
 var intrinsics = map[string]intrinsic{}
 
 func lookupIntrinsic(fn *ssa.Function) intrinsic {
+	if fn.Name() == "init" && fn.Synthetic != "" && fn.Signature.Recv() == nil {
+		// initializers of imported packages: globals are initialised lazily per package
+		return noop
+	}
 	name := fn.String()
 	if o := fn.Origin(); o != nil {
 		name = o.String()
